@@ -24,9 +24,11 @@ Proof.
 Qed.
 Print Assumptions c47_autoflush_equiv_explicit_flush_guarded.
 
-(* REFUTED outside the guard: a lazy load / collection load on a PENDING object returns nothing although
-   after a flush it returns the related object(s) (relationship.load_on_pending is off by default) *)
-Theorem c47_autoflush_equiv_explicit_flush_refuted :
+(* DOCUMENTED, outside the property: no load is emitted for a PENDING object (relationship.load_on_pending is
+   False by default), so attribute access on it returns None / [] without SQL and without autoflush, whereas
+   after a flush the (then persistent) object loads the related object(s).  No lazy load is "executed" there;
+   this theorem only records that the guard of the main theorem cannot be dropped for such accesses. *)
+Theorem c47_no_load_emitted_for_pending_object :
   (exists ops, let s := run ops (init [1%N] [] true 1 2) in
      enabled LazyP MDefault s = true /\ snd (exec LazyP MDefault 1 s) <> snd (exec LazyP MDefault 1 (flush s))) /\
   (exists ops, let s := run ops (init [1%N] [(1%N, (10%Z, 1%N))] true 2 2) in
@@ -36,7 +38,7 @@ Proof.
   - exists [AddC 10 1]. vm_compute. split; [reflexivity|discriminate].
   - exists [Query Get MDefault 1; AddP; SetPid 1 2]. vm_compute. split; [reflexivity|discriminate].
 Qed.
-Print Assumptions c47_autoflush_equiv_explicit_flush_refuted.
+Print Assumptions c47_no_load_emitted_for_pending_object.
 
 (* the statement-executing entry points run on the flushed state: the query itself is evaluated exactly as
    with autoflush off on [flush s] *)
